@@ -985,6 +985,8 @@ class ExprMixin:
         raise Unsupported(f"subscript of {base!r}")
 
     def slice_val(self, base, lo, hi):
+        if isinstance(base, IteV):
+            return self.slice_val(base.a if self.decide(base.c) else base.b, lo, hi)
         if isinstance(base, S):
             return self.shape_slice(base, lo, hi)
         if isinstance(base, Sym):
